@@ -218,6 +218,7 @@ class Facts:
                     if o.get("body") or o.get("inits"):
                         refnames.normalise(o)
                         refnames.canonical_equalities(o)
+                        refnames.canonical_compound(o)
                     self.fns.append(o)
                 elif e == "rec":
                     # keep the definition with most fields (there is only one per q unless templates/specs)
